@@ -6,7 +6,7 @@
 (* Clauses that start with "MACHINERY:" mean the event itself is unusable  *)
 (* (a wrong hint) - they are never reported as violations of the property. *)
 (***************************************************************************)
-EXTENDS CGSem, CGLint
+EXTENDS CGSem, CGLint, CGTxApi
 
 RECURSIVE TFISetTx(_,_)
 TFISetTx(c, S) == LET P == S \cup UNION {FiSet(c, i) : i \in S} IN IF P = S THEN S ELSE TFISetTx(c, P)
@@ -119,6 +119,9 @@ Judge_miter(e) ==
       P0(nm) == IF nm \in S THEN nm ELSE "c0_" \o nm
       P1(nm) == IF nm \in S THEN nm ELSE "c1_" \o nm
   IN Machinery(c0) \cup Machinery(c1) \cup Machinery(m)
+     \cup (IF c0.n + c1.n <= 12 /\ WellFormedRec(m) /\ WellFormedRec(c0) /\ WellFormedRec(c1)
+              /\ ToNamed(m) # MiterModel(ToNamed(c0), ToNamed(c1), S, E)
+           THEN {"DRIFT:miter_differs_from_as_built_model"} ELSE {})
      \cup (IF InputNames(m) = S THEN {} ELSE {"inputs_are_not_the_tied_startpoints"})
      \cup (IF OutputNames(m) = {"sat"} THEN {} ELSE {"outputs_are_not_sat"})
      \cup (IF ~(m.acyc /\ c0.acyc /\ c1.acyc) \/ ~HasName(m, "sat") \/ NFree(m) > MaxBits
@@ -183,6 +186,9 @@ Judge_unroll(e) ==
       mapOK == /\ \A nm \in ioNames : HasMap(e, nm) /\ Len(MapOf(e, nm)) = e.n
                                          /\ \A t \in 1..e.n : HasName(uc, MapOf(e, nm)[t])
   IN Machinery(c) \cup Machinery(uc)
+     \cup (IF c.n * e.n <= 14 /\ WellFormedRec(c) /\ WellFormedRec(uc)
+              /\ ToNamed(uc) # UnrollModel(ToNamed(c), e.n, {<<e.sio[j][1], e.sio[j][2]>> : j \in 1..Len(e.sio)})
+           THEN {"DRIFT:unroll_differs_from_as_built_model"} ELSE {})
      \cup (IF mapOK THEN {} ELSE {"io_map_incomplete"})
      \cup (IF ~mapOK THEN {} ELSE
            (IF InputNames(uc) = wantInputs THEN {} ELSE {"inputs_of_unrolled_circuit"})
